@@ -191,13 +191,31 @@ package main
 //@     invariant[never-plain-rename] hRenames == old(hRenames)
 
 // ---- topic_discoverer.go ---------------------------------------------------------------------------------
-// NewFileLogger: constructor (go-nsq consumer set-up, connects): assumed to allocate a new logger and to leave every
-// existing logger and the discoverer alone. Body not verified (go-nsq internals).
+// NewFileLogger (round 6, area M: was a `trusted` stub; the body is VERIFIED now, the go-nsq consumer calls are assumed library contracts in
+// .trusted/r6M.spec). C19 needs of the logger it builds: it carries exactly the options / topic / log function given (every FileLogger contract reads
+// f.opts); NO output file is open yet (f.out == nil, no gzip writer, no writer: the first message opens one through updateFile, which is where the
+// exclusive-create clauses sit) and nothing was written, synced, opened or renamed by the constructor; the three channels exist and are new, pairwise different objects
+// (their CAPACITY cannot be stated: `cap` of a channel is not in the spec language - notes); the consumer was made for this topic and the configured
+// channel, the logger itself is its only handler and was registered BEFORE the consumer connects (so no message can arrive without a handler), the
+// consumer connects to exactly the configured nsqd and lookupd addresses; a failure of any step returns the error and NO logger.
 //@ ghost r3dCtorFails int
+// (round 6, area M) a frame that allows a constructor call (names r3dCtorFails) allows the records of the consumer calls the constructor makes
+//@ ghostgroup[lead] r3dCtorFails, r6MConsTopic, r6MConsHandlers, r6MConsNsqdConnects, r6MConsLookupdConnects
 //@ func NewFileLogger(logf lg.AppLogFunc, opts *Options, topic string, cfg *nsq.Config) (*FileLogger, error)
 //@   props C19
-//@   trusted
-//@   ensures[logger-or-error] result1 == nil ==> result0 != nil && fresh(result0)
+//@   requires opts != nil
+//@   ensures[logger-or-error] (result1 == nil ==> result0 != nil && fresh(result0)) && (result1 != nil ==> result0 == nil)
+//@   ensures[built-from-the-arguments] result1 == nil ==> result0.opts == opts && result0.topic == topic && result0.logf == logf
+//@   ensures[no-file-open-yet] result1 == nil ==> result0.out == nil && result0.writer == nil && result0.gzipWriter == nil && result0.filesize == 0 && result0.rev == 0
+//@   ensures[channels-made] result1 == nil ==> result0.logChan != nil && fresh(result0.logChan) && result0.termChan != nil && fresh(result0.termChan) &&
+//@        result0.hupChan != nil && fresh(result0.hupChan) && result0.termChan != result0.hupChan
+//@   ensures[consumer-for-this-topic-and-the-configured-channel] result1 == nil ==> result0.consumer != nil && result0.consumer == r6MConsMade && r6MConsTopic == topic && r6MConsChannel == opts.Channel
+//@   ensures[the-logger-is-the-only-handler-and-registered-before-connecting] result1 == nil ==> r6MConsHandlers == old(r6MConsHandlers) + 1 && r6MConsHandlerOn == result0.consumer &&
+//@        dyntype(r6MConsHandler) == typetag("*FileLogger") && unbox(r6MConsHandler, "*FileLogger") == result0 && r6MConsConnectSawHandlers == r6MConsHandlers
+//@   ensures[connects-to-the-configured-addresses] result1 == nil ==> r6MConsNsqdConnects == old(r6MConsNsqdConnects) + 1 && r6MConsNsqdAddrs == opts.NSQDTCPAddrs &&
+//@        r6MConsLookupdConnects == old(r6MConsLookupdConnects) + 1 && r6MConsLookupdAddrs == opts.NSQLookupdHTTPAddrs
+//@   ensures[filename-template-keeps-rev-when-names-can-collide] result1 == nil && r3dNeedsRev(opts) ==> r3dContains(result0.filenameFormat, "<REV>")
+//@   ensures[constructor-touches-no-file] hOpens == old(hOpens) && hFsyncs == old(hFsyncs) && hFcloses == old(hFcloses) && hRenames == old(hRenames) && hLinks == old(hLinks) && hRemoves == old(hRemoves) && hFinishes == old(hFinishes)
 // r3d: failed constructions are counted (ghost r3dCtorFails), so "every allowed topic gets a logger unless its constructor failed" can be said
 //@   modifies r3dCtorFails
 //@   onreturn r3dCtorFails := r3dCtorFails + (result1 != nil ? 1 : 0)
